@@ -61,7 +61,7 @@ class SQLRepo:
                     self._session.delete(prop_link)
                     if delete_prop:
                         self._session.delete(prop_link.prop)
-                    self._session.commit()
+                    self._flush_and_expire()
 
                 for note_tags in [
                     sql_note.areas,
@@ -72,7 +72,7 @@ class SQLRepo:
                     for tag in note_tags:  # type: ignore[attr-defined]
                         if len(tag.notes) == 1:
                             self._session.delete(tag)
-                            self._session.commit()
+                            self._flush_and_expire()
 
                 self._session.delete(sql_note)
 
@@ -83,6 +83,17 @@ class SQLRepo:
             emsg = "Cannot delete zorg file since it does not exist."
             _LOGGER.debug(emsg, path=filename)
             return None
+
+    def _flush_and_expire(self) -> None:
+        """Sends pending changes to the DB WITHOUT committing them.
+
+        All loaded objects are expired (as a commit would do), so relationship
+        collections (e.g. tag.notes) are reloaded and reflect those changes.
+        The caller's commit then makes the removal of the old version of a
+        page and the addition of its new version ONE transaction.
+        """
+        self._session.flush()
+        self._session.expire_all()
 
     def get_page_names(self) -> list[str]:
         """Returns the names (i.e. relative paths) of all pages in the DB."""
